@@ -765,7 +765,7 @@ def refine_model(ob, s, rounds=8, timeout_s=5.0, formulas=None):
     return "unknown", None
 
 
-def discharge_one(ob, timeout_s=10.0, use_cvc5=True):
+def discharge_one(ob, timeout_s=10.0, use_cvc5=True, stage="all"):
     """returns dict(verdict, backend, time, model).  Strategy: z3 with a short budget (most
     VCs take milliseconds); if it gives up, cvc5 --strings-exp with the full budget; then z3
     again with the full budget and another seed (z3's sequence solver is unstable on
@@ -774,6 +774,14 @@ def discharge_one(ob, timeout_s=10.0, use_cvc5=True):
     goal = ob.goal
     if z3.is_true(goal):
         return {"verdict": "proved", "backend": "simplifier", "time": 0.0}
+    if stage == "slow":
+        # second pass: the fast stages have been tried (and gave up) already
+        s = z3.Solver()
+        for f in ob.pc:
+            s.add(f)
+        s.add(z3.Not(ob.goal))
+        reason = "timeout"
+        return _discharge_slow(ob, s, timeout_s, use_cvc5, t0, reason)
     r, s = _z3_try(ob, min(2.0, timeout_s))
     if r == z3.unsat:
         return {"verdict": "proved", "backend": "z3", "time": time.time() - t0}
@@ -803,6 +811,12 @@ def discharge_one(ob, timeout_s=10.0, use_cvc5=True):
     if m is not None:
         return {"verdict": "refuted", "backend": "z3 (quantifiers expanded on ranges within [0,2))",
                 "time": time.time() - t0, "model": m}
+    if stage == "fast":
+        return {"verdict": "unknown", "backend": "z3+cvc5", "time": time.time() - t0, "reason": reason, "pending": True}
+    return _discharge_slow(ob, s, timeout_s, use_cvc5, t0, reason)
+
+
+def _discharge_slow(ob, s, timeout_s, use_cvc5, t0, reason):
     if use_cvc5 and os.path.exists(CVC5):
         try:
             r2 = run_cvc5(s.to_smt2(), timeout_s)
@@ -944,8 +958,8 @@ def unjson(x):
 
 # --------------------------------------------------------------------------
 
-def _discharge_payload(ob, timeout_s):
-    res = discharge_one(ob, timeout_s)
+def _discharge_payload(ob, timeout_s, stage="all"):
+    res = discharge_one(ob, timeout_s, stage=stage)
     m = res.pop("model", None)
     if m is not None:
         res["model_str"] = str(m)[:4000]
@@ -972,19 +986,38 @@ def discharge_all(obs, timeout_s, deadline=None):
             todo.append(i)
     ctx = mp.get_context("fork")
     per_ob = 8 * timeout_s + 20     # z3, bounded look, cvc5, fresh context, two seeds, bounded refuter K=2,3
+    slow_only = set()               # obligations whose fast stages are done (survives a restart of the child)
     while todo:
-        if deadline is not None and time.time() > deadline:
+        if deadline is not None and time.time() > deadline and not any(i not in slow_only for i in todo):
             for i in todo:
-                results[i] = {"verdict": "unknown", "backend": "none", "time": 0.0,
-                              "reason": "not attempted: the function's time budget was used up"}
+                results[i] = {"verdict": "unknown", "backend": "z3+cvc5", "time": 0.0,
+                              "reason": "the fast provers gave no answer and the function's time budget was used up"}
             break
         parent, child = ctx.Pipe(duplex=False)
 
         def work(conn, todo=list(todo)):
             try:
+                # first pass: the fast stages on every obligation (proofs in milliseconds, refutations in seconds);
+                # second pass: the expensive provers on what is left, so that one hard obligation cannot starve the others
+                later = []
                 for i in todo:
+                    if i in slow_only:
+                        later.append(i)
+                        continue
+                    conn.send(("working", i))
                     try:
-                        conn.send((i, _discharge_payload(obs[i], timeout_s)))
+                        res = _discharge_payload(obs[i], timeout_s, stage="fast")
+                    except BaseException as e:  # noqa: BLE001
+                        res = {"verdict": "unknown", "backend": "error", "time": 0.0, "reason": repr(e)}
+                    if res.pop("pending", False):
+                        conn.send(("fast-done", i))
+                        later.append(i)
+                    else:
+                        conn.send((i, res))
+                for i in later:
+                    conn.send(("working", i))
+                    try:
+                        conn.send((i, _discharge_payload(obs[i], timeout_s, stage="slow")))
                     except BaseException as e:  # noqa: BLE001
                         conn.send((i, {"verdict": "unknown", "backend": "error", "time": 0.0, "reason": repr(e)}))
             finally:
@@ -994,28 +1027,45 @@ def discharge_all(obs, timeout_s, deadline=None):
         p = ctx.Process(target=work, args=(child,))
         p.start()
         child.close()
+        current = None
         while todo:
             t0 = time.time()
             got = None
-            if deadline is not None and time.time() > deadline:
-                break
             if parent.poll(per_ob):
                 try:
                     got = parent.recv()
                 except EOFError:
                     got = None
             if got is None:
-                # silent or dead child: the first outstanding obligation is undecided
-                i = todo.pop(0)
+                # silent or dead child: the obligation it was working on is undecided; a new child continues
+                i = current if current in todo else todo[0]
+                todo.remove(i)
+                slow_only.discard(i)
                 results[i] = {"verdict": "unknown", "backend": "z3+cvc5", "time": time.time() - t0,
                               "reason": "hard deadline / worker died"}
                 break
-            i, res = got
-            results[i] = res
-            todo.remove(i)
+            tag, val = got
+            if tag == "working":
+                current = val
+                if deadline is not None and time.time() > deadline and val in slow_only:
+                    # the function's time is up: nothing expensive is started any more
+                    break
+                continue
+            if tag == "fast-done":
+                slow_only.add(val)
+                continue
+            results[tag] = val
+            todo.remove(tag)
+            slow_only.discard(tag)
         p.kill()
         p.join(2)
         parent.close()
+        if deadline is not None and time.time() > deadline:
+            for i in todo:
+                results[i] = {"verdict": "unknown", "backend": "z3+cvc5", "time": 0.0,
+                              "reason": "the fast provers gave no answer and the function's time budget was used up"
+                              if i in slow_only else "not attempted: the function's time budget was used up"}
+            todo = []
     return results
 
 
